@@ -46,7 +46,7 @@ BinFails(e) ==
                    ELSE IF n \in CmpNames \/ a.t = "Boolean" THEN F(e.r.k = "bool" /\ e.r.n = x[2], "the operator does not return what the arithmetic of the first operand's type gives")
                    ELSE F(Exact(e.r) /\ Num8(e.r) = x[2], "the operator does not return what the arithmetic of the first operand's type gives"))
           \o (IF "host" \in DOMAIN e
-              THEN F(e.r.t = e.host.t /\ e.r.s = e.host.s, "the operator does not return what the host's own operator on the first operand's native type returns")
+              THEN F(e.r.t = e.host.t /\ e.r.s = e.host.s /\ e.r.z = e.host.z, "the operator does not return what the host's own operator on the first operand's native type returns")
               ELSE ""))
 
 UnFails(e) ==
@@ -64,6 +64,9 @@ UnFails(e) ==
         ELSE F(e.outcome = "value" /\ e.r.t = a.t, "unary minus changed the type")
           \o (IF e.outcome = "value" /\ Exact(a) THEN F(Exact(e.r) /\ Num8(e.r) = -Num8(a), "unary minus is not the negation") ELSE ""))
 
+UnHostFails(e) == IF "host" \in DOMAIN e /\ e.outcome = "value"
+                  THEN F(e.r.t = e.host.t /\ e.r.s = e.host.s /\ e.r.z = e.host.z, "the unary operator does not return what the host's own operator on the native type returns (value and sign of zero)")
+                  ELSE ""
 \* mutual consistency of the comparisons for operands of equal, ordered types (NaN compares false with everything: skipped)
 CmpFails(e) ==
   LET all == {e.lt, e.gt, e.le, e.ge, e.eq, e.ne, e.gtba, e.ltba} IN
@@ -128,7 +131,7 @@ BStepFails(e) ==
   IF e.outcome = "panic" /\ e.fo # "panic" THEN "the operator crashed on a long-lived manager; "
   ELSE F(e.outcome = e.fo /\ (e.outcome = "value" => e.r.t = e.fr.t /\ e.r.s = e.fr.s),
          "an operator call on a long-lived manager differs from the same call on a new manager with new operand objects (it depends on earlier calls or on operand identity)")
-Fails(e) == CASE e.op = "bstep" -> BStepFails(e) [] e.op = "alias" -> AliasFails(e) [] e.op = "powdouble" -> PowDoubleFails(e) [] e.op = "bin" -> BinFails(e) [] e.op = "un" -> UnFails(e) [] e.op = "cmp" -> CmpFails(e)
+Fails(e) == CASE e.op = "bstep" -> BStepFails(e) [] e.op = "alias" -> AliasFails(e) [] e.op = "powdouble" -> PowDoubleFails(e) [] e.op = "bin" -> BinFails(e) [] e.op = "un" -> UnFails(e) \o UnHostFails(e) [] e.op = "cmp" -> CmpFails(e)
               [] e.op = "law" -> LawFails(e) [] e.op = "in" -> InFails(e) [] e.op = "elem" -> ElemFails(e) [] OTHER -> ""
 Init == l = 1
 Next ==
